@@ -565,13 +565,15 @@ def lrem (s : MState) (now : Int) (key data : Bytes) (count : Int) : R :=
     (emit (signal s key) (opList 16 key [Bytes.toHex data, toString count]), .int r)
 
 def lset (s : MState) (now : Int) (key : Bytes) (index : Int) (data : Bytes) : R :=
-  let (s, _) := writeKey s now key (some (.list DsList.empty))
-  let s := emit (signal s key) (opList 17 key [toString index, Bytes.toHex data])
+  let (s, ok) := writeKey s now key none
+  if !ok then (s, .bool false) else
   match asList s key with
   | none => (s, .panic)
   | some l =>
     let (l', r) := DsList.lset l index data
-    (setVal s key (.list l'), .bool r)
+    if !r then (s, .bool false) else
+    let s := setVal s key (.list l')
+    (emit (signal s key) (opList 17 key [toString index, Bytes.toHex data]), .bool true)
 
 def ltrim (s : MState) (now : Int) (key : Bytes) (start stop : Int) : R :=
   let (s, ok) := writeKey s now key none
@@ -579,7 +581,9 @@ def ltrim (s : MState) (now : Int) (key : Bytes) (start stop : Int) : R :=
   match asList s key with
   | none => (s, .panic)
   | some l =>
-    let s := setVal s key (.list (DsList.ltrim l start stop))
+    let l' := DsList.ltrim l start stop
+    let s := setVal s key (.list l')
+    let s := if DsList.llen l' = 0 then delKey s key else s
     (emit (signal s key) (opList 18 key [toString start, toString stop]), .unit)
 
 def lrange (s : MState) (now : Int) (key : Bytes) (start stop : Int) : R :=
@@ -705,18 +709,20 @@ def hsetnx (s : MState) (now : Int) (key field value : Bytes) : R :=
     let s := setVal s key (.hash h')
     (emit (signal s key) { typ := 10, key := key, args := [Bytes.toHex field, Bytes.toHex value] }, .int r)
 
-/-- HMSet: the count is computed into a shadowed variable, so the method returns 0 -/
+/-- HMSet: number of fields that were new -/
 def hmset (s : MState) (now : Int) (key : Bytes) (pairs : List (Bytes × Bytes)) : R :=
   let (s, _) := writeKey s now key (some (.hash []))
   match asHash s key with
   | none => (s, .panic)
   | some h =>
-    let h' := pairs.foldl (fun h (k, v) => (DsHash.hset h k v).1) h
+    let (h', c) := pairs.foldl (fun (acc : AList Bytes × Int) (k, v) =>
+        let (h2, r) := DsHash.hset acc.1 k v
+        (h2, acc.2 + r)) (h, 0)
     let s := setVal s key (.hash h')
     -- one OpHSet per field, in Go map order: the feed checker compares them as a multiset
     let s := signal s key
     let s := pairs.foldl (fun s (k, v) => emit s { typ := 10, key := key, args := [Bytes.toHex k, Bytes.toHex v] }) s
-    (s, .int 0)
+    (s, .int c)
 
 /-! ## set.go -/
 
@@ -749,7 +755,7 @@ def readMany (s : MState) (now : Int) (keys : List Bytes) : MState × List (Opti
     let (s, ok) := readKey acc.1 now k
     (s, acc.2 ++ [if ok then some (asSet s k) else none])) (s, [])
 
-/-- SDiff: tests `meta` (the first key) instead of `metaX`, so a missing later operand panics -/
+/-- SDiff: members of the first set that are in none of the others; a missing key is the empty set -/
 def sdiff (s : MState) (now : Int) (keys : List Bytes) : R :=
   match keys with
   | [] => (s, .slist [])
@@ -760,26 +766,38 @@ def sdiff (s : MState) (now : Int) (keys : List Bytes) : R :=
     match asSet s k0 with
     | none => (s, .panic)
     | some st =>
-      -- metaX.value.(*set.Set): a missing operand has a nil value ⇒ panic; wrong type ⇒ panic
-      if others.any (fun o => match o with | some (some _) => false | _ => true) then (s, .panic) else
+      -- wrong-typed operands panic on the type assertion; missing ones are skipped
+      if others.any (fun o => match o with | some none => true | _ => false) then (s, .panic) else
       let os := others.filterMap fun o => match o with | some (some x) => some x | _ => none
       (s, .slist (DsSet.sdiff st os))
 
+/-- SInter: a missing operand (first or later) makes the intersection empty -/
 def sinter (s : MState) (now : Int) (keys : List Bytes) : R :=
   match keys with
   | [] => (s, .slist [])
   | [k] => smembers s now k
   | k0 :: rest =>
     let (s, ok) := readKey s now k0
-    let (s, others) := readMany s now rest
-    -- missing later operands are skipped; wrong-typed ones panic
-    if others.any (fun o => match o with | some none => true | _ => false) then (s, .panic) else
-    let os := others.filterMap fun o => match o with | some (some x) => some x | _ => none
-    if !ok then (s, .panic) else              -- meta.value is nil
-    match asSet s k0 with
-    | none => (s, .panic)
-    | some st => (s, .slist (DsSet.sinter st os))
+    if !ok then (s, .slist []) else
+    -- operands are read in order; the first missing one ends the call with the empty set
+    let rec go (ks : List Bytes) (s : MState) (acc : List (AList Unit)) : MState × Option (Option (List (AList Unit))) :=
+      match ks with
+      | [] => (s, some (some acc))
+      | k :: more =>
+        let (s, ok) := readKey s now k
+        if !ok then (s, some none) else
+        match asSet s k with
+        | none => (s, none)
+        | some x => go more s (acc ++ [x])
+    match go rest s [] with
+    | (s, none) => (s, .panic)
+    | (s, some none) => (s, .slist [])
+    | (s, some (some os)) =>
+      match asSet s k0 with
+      | none => (s, .panic)
+      | some st => (s, .slist (DsSet.sinter st os))
 
+/-- SUnion: missing operands are skipped; all missing = the empty set -/
 def sunion (s : MState) (now : Int) (keys : List Bytes) : R :=
   match keys with
   | [] => (s, .slist [])
@@ -789,7 +807,7 @@ def sunion (s : MState) (now : Int) (keys : List Bytes) : R :=
     if all.any (fun o => match o with | some none => true | _ => false) then (s, .panic) else
     let os := all.filterMap fun o => match o with | some (some x) => some x | _ => none
     match os with
-    | [] => (s, .panic)                       -- otherSets[0] on an empty slice
+    | [] => (s, .slist [])
     | st :: rest => (s, .slist (DsSet.sunion st rest))
 
 /-- S*STORE = compute, Del(destination), SAdd(destination, members...) as three calls -/
@@ -798,6 +816,7 @@ def sstore (op : MState → Int → List Bytes → R) (s : MState) (now : Int) (
   match op s now keys with
   | (s, .slist ms) =>
     let (s, _) := del (commit s) now [dst]
+    if ms.isEmpty then (s, .int 0) else       -- an empty result stores nothing: the destination ceases to exist
     sadd (commit s) now dst ms
   | (s, o) => (s, o)
 
@@ -809,6 +828,7 @@ def srem (s : MState) (now : Int) (key : Bytes) (members : List Bytes) : R :=
   | some st =>
     let (st', r) := DsSet.srem st members
     let s := setVal s key (.set st')
+    let s := if DsSet.scard st' = 0 then delKey s key else s
     (emit (signal s key) { typ := 24, key := key, args := members.map Bytes.toHex }, .int r)
 
 def distinct : List Bytes → Bool
@@ -829,6 +849,7 @@ def spop (s : MState) (now : Int) (key : Bytes) (count : Int) (choice : List Byt
     if !valid then (s, .str (Bytes.ofString "INVALID-CHOICE")) else
     let (st', _) := DsSet.srem st choice
     let s := setVal s key (.set st')
+    let s := if DsSet.scard st' = 0 then delKey s key else s
     (emit (signal s key) { typ := 24, key := key, args := choice.map Bytes.toHex }, .slist choice)
 
 def srandmember (s : MState) (now : Int) (key : Bytes) (count : Int) (choice : List Bytes) : R :=
@@ -853,15 +874,15 @@ def smove (s : MState) (now : Int) (src dst member : Bytes) : R :=
     let (st', m) := DsSet.srem st [member]
     let s := setVal s src (.set st')
     if m = 0 then (s, .bool false) else
+    let s := if DsSet.scard st' = 0 then delKey s src else s
     let s := signal s src
-    if src = dst then (s, .hang) else
-    let (s, _) := writeKey s now dst (some (.set []))
+    let (s, _) := writeKey s now dst (some (.set []))      -- src = dst while still indexed: self-deadlock (Store.lockW)
     match asSet s dst with
     | none => (s, .panic)
     | some d =>
-      let (d', added) := DsSet.sadd d [member]
+      let (d', _) := DsSet.sadd d [member]
       let s := setVal s dst (.set d')
-      (emit (signal s dst) { typ := 23, key := dst, args := [Bytes.toHex member] }, .bool (added > 0))
+      (emit (signal s dst) { typ := 23, key := dst, args := [Bytes.toHex member] }, .bool true)
 
 /-! ## zset.go -/
 
@@ -878,7 +899,17 @@ def zaddWith (f : ZSet → Bytes → F64 → ZSet × Int) (s : MState) (now : In
     (emit (signal s key) (opZAdd key m sc), .int r)
 
 def zadd := zaddWith DsZSet.zAdd
-def zaddXX := zaddWith DsZSet.zAddXX
+/-- ZAddXX never creates a key -/
+def zaddXX (s : MState) (now : Int) (key m : Bytes) (sc : F64) : R :=
+  let (s, ok) := writeKey s now key none
+  if !ok then (s, .int 0) else
+  match asZSet s key with
+  | none => (s, .panic)
+  | some z =>
+    let (z', r) := DsZSet.zAddXX z m sc
+    if !AList.contains z.dict m then (s, .int 0) else
+    let s := setVal s key (.zset z')
+    (emit (signal s key) (opZAdd key m sc), .int r)
 def zaddNX := zaddWith DsZSet.zAddNX
 
 /-- ZAddLT / ZAddGT: signal only when the score changed -/
@@ -968,6 +999,7 @@ def zrem (s : MState) (now : Int) (key : Bytes) (members : List Bytes) : R :=
   | some z =>
     let (z', r) := DsZSet.zRem z members
     let s := setVal s key (.zset z')
+    let s := if DsZSet.zCard z' = 0 then delKey s key else s
     if r > 0 then (emit (signal s key) { typ := 29, key := key, args := members.map Bytes.toHex }, .int r)
     else (s, .int r)
 
@@ -979,6 +1011,7 @@ def zremRangeByRank (s : MState) (now : Int) (key : Bytes) (start stop : Int) : 
   | some z =>
     let (z', r) := DsZSet.zRemRangeByRank z start stop
     let s := setVal s key (.zset z')
+    let s := if DsZSet.zCard z' = 0 then delKey s key else s
     if r > 0 then (emit (signal s key) { typ := 30, key := key, args := [toString start, toString stop] }, .int r)
     else (s, .int r)
 
@@ -990,6 +1023,7 @@ def zremRangeByScore (s : MState) (now : Int) (key : Bytes) (min max : F64) (mod
   | some z =>
     let (z', r) := DsZSet.zRemRangeByScore z min max (mode % 4).toNat
     let s := setVal s key (.zset z')
+    let s := if DsZSet.zCard z' = 0 then delKey s key else s
     if r > 0 then (emit (signal s key) { typ := 31, key := key, args := [toString min, toString max, toString mode] }, .int r)
     else (s, .int r)
 
@@ -1009,34 +1043,21 @@ def zscan (s : MState) (now : Int) (key : Bytes) (cursor : Int) (pat : Bytes) (c
     | some (c, items) => .many [.int c, .ilist (items.map some)]
     | none => .panic) (.many [.int 0, .ilist []]) s now key
 
-/-- accumulate one (member, score) of one operand into the result map of ZUnion / ZInter.
-    Result `none` = float arithmetic outside the model. -/
+/-- accumulate one (member, score) of one operand into the result map of ZUnion / ZInter:
+    the weighted score is added to / min'ed / max'ed with what is there -/
 def aggregate (agg : Bytes) (weight : F64) (acc : AList F64) (it : Item) : Option (AList F64) :=
   let (sc, m) := it
+  let ws := F64.mul sc weight
   let isSum := agg = Bytes.ofString "SUM" ∨ agg.isEmpty
   let isMin := agg = Bytes.ofString "MIN"
   let isMax := agg = Bytes.ofString "MAX"
-  do
-    let acc ← if isSum then
-        match AList.get? acc m with
-        | none => (F64.mul? sc weight).map (AList.set acc m)
-        | some cur => do
-            let a ← F64.mul? cur weight
-            let b ← F64.mul? weight sc
-            let r ← F64.add? a b
-            pure (AList.set acc m r)
-      else pure acc
-    let acc ← if isMin then
-        match AList.get? acc m with
-        | none => (F64.mul? sc weight).map (AList.set acc m)
-        | some cur => if F64.lt sc cur then (F64.mul? sc weight).map (AList.set acc m) else pure acc
-      else pure acc
-    let acc ← if isMax then
-        match AList.get? acc m with
-        | none => (F64.mul? sc weight).map (AList.set acc m)
-        | some cur => if F64.gt sc cur then (F64.mul? sc weight).map (AList.set acc m) else pure acc
-      else pure acc
-    pure acc
+  match AList.get? acc m with
+  | none => if isSum ∨ isMin ∨ isMax then some (AList.set acc m ws) else some acc
+  | some cur =>
+    if isSum then some (AList.set acc m (F64.add cur ws))
+    else if isMin then some (if F64.lt ws cur then AList.set acc m ws else acc)
+    else if isMax then some (if F64.gt ws cur then AList.set acc m ws else acc)
+    else some acc
 
 def weightAt (weights : List F64) (i : Nat) : F64 := weights.getD i 0x3ff0000000000000
 
@@ -1118,13 +1139,13 @@ def zinter (s : MState) (now : Int) (keys : List Bytes) (weights : List F64) (ag
 def zstore (union : Bool) (s : MState) (now : Int) (dst : Bytes) (keys : List Bytes) (weights : List F64) (agg : Bytes) : R :=
   let core := if union then zunionCore else zinterCore
   let step (s : MState) (items : List Item) : R :=
-    if items.isEmpty then (s, .int 0) else
-    match asZSet s dst with
-    | none => (s, .panic)
-    | some z =>
-      let z' := items.foldl (fun z it => (DsZSet.zAdd z it.2 it.1).1) z
-      let s := setVal s dst (.zset z')
-      (emit (signal s dst) { typ := if union then 34 else 35, key := dst }, .int items.length)
+    if items.isEmpty then (delKey s dst, .int 0) else      -- an empty result: the destination ceases to exist
+    -- the destination is replaced whatever it held, not merged
+    let z' := items.foldl (fun z it => (DsZSet.zAdd z it.2 it.1).1) DsZSet.empty
+    -- meta.setValue(result): a new value object (the old one may live on in the in-memory backend)
+    let (oid, s) := fresh s
+    let s := modMeta s dst fun m => ({ m with oid := oid }.setValue (.zset z'))
+    (emit (signal s dst) { typ := if union then 34 else 35, key := dst }, .int items.length)
   if union then
     let existed := (getMeta s dst).isSome
     let (s, _) := writeKey s now dst (some (.zset DsZSet.empty))
